@@ -367,6 +367,9 @@ def generate(rng, opts):
             "sweep": rng.random() < opts.get("forth_sweep_share", 0.04)}
     if rng.random() < opts.get("forth_illformed_rate", 0.12):
         case["mutate_source"] = gen_source_mutation(rng, fm.render(prog))
+    # user words called while the program is paused: [number of the pause, word]
+    case["calls_at_pause"] = [[rng.choice([1, 1, 2, 3]), rng.choice(prog["defs"])[0]] for _ in range(rng.randint(0, 2))] \
+        if prog["defs"] else []
     return case
 
 
@@ -512,6 +515,76 @@ class Driver:
         return err
 
 
+def calls_at_pause(node, case, rec, opts, drv, srcb, src, prog, cap_calls, pauses):
+    """run/resume with call(word) issued at chosen pauses, on the machine and on the model: a called word works on the
+    shared stack and leaves the paused program where it was (the next resume continues it); a word that pauses itself is
+    finished by the following resumes before the program goes on."""
+    m2 = fm.Model(prog, case["width"], case["stack_max"], case["rec_max"], budget=opts.get("forth_budget", 20000))
+    for k, v in drv.inputs.items():
+        m2.set_input(k, v)
+    h2 = drv.machine(srcb)
+
+    def compare(stage, merr, err2):
+        mv = view(fm.ERRCODE[merr], m2.state())
+        vr = view(err2, node.fm_state(h2))
+        if not same_view(mv, vr):
+            raise Violation("model", "state_with_calls_at_pauses_differs",
+                            {"source": src, "calls_at_pause": cap_calls, "stage": stage, "diff(model,real)": diff_view(mv, vr)})
+    try:
+        merr = m2.run()
+        err2, _ = node.fm_do(h2, node.FM_RUN)
+        k = 0
+        while True:
+            if merr == "none" and not m2.done and err2 == 0 and (node.fm_flags(h2) & 2):
+                # a pause that is the last word of the program: the machine is done when it stops there, the
+                # model's coroutine ends with the next resume without executing anything
+                n0 = m2.ninstr
+                merr = m2.resume()
+                if m2.ninstr != n0:
+                    raise Violation("model", "state_with_calls_at_pauses_differs",
+                                    {"source": src, "calls_at_pause": cap_calls, "stage": "pause %d" % k,
+                                     "diff(model,real)": {"done": [False, True]}})
+            compare("pause %d" % k, merr, err2)
+            if merr != "none" or m2.done:
+                break
+            k += 1
+            for kk, word in cap_calls:
+                if kk != k or merr != "none":
+                    continue
+                base = len(m2.gens)
+                merr = m2.call(word)
+                inner = 0
+                while merr == "none" and len(m2.gens) > base:
+                    inner += 1
+                    merr = m2.resume()
+                # (the machine has no accessor that tells "the called word has finished" from "the called word has
+                # paused": current_recursion_depth() is relative to the innermost call. The caller knows its word; here
+                # the model says how many resumes the word needs.)
+                err2 = node.fm_call(h2, word)
+                for _ in range(inner):
+                    if err2 != 0:
+                        break
+                    err2, _ = node.fm_do(h2, node.FM_RESUME)
+                rec.ticks += 1
+                rec.ev("call_at_pause", k, word, err2)
+                rec.probe("calls_at_pauses_compared")
+                compare("after call of %s at pause %d" % (word, k), merr, err2)
+            if merr != "none":
+                break
+            if k > pauses + 8 * len(cap_calls) + 8:
+                break       # a called word changed the stack the program loops on: bounded, no verdict beyond here
+            merr = m2.resume()
+            err2, _ = node.fm_do(h2, node.FM_RESUME)
+    except fm.Budget:
+        rec.probe("calls_at_pauses_budget")
+    except fm.Unspecified:
+        rec.probe("unspecified_behaviour")
+    except NodeError as e:
+        raise Violation("robustness", "exception_from_call", {"error": [e.cls, e.msg[:300]]})
+    finally:
+        node.drop(h2)
+
+
 def execute(node, case, rec, opts):
     prog = case["program"]
     src = fm.render(prog)
@@ -589,6 +662,11 @@ def execute(node, case, rec, opts):
             else:
                 cls = "final_state_differs"
             raise Violation("model", cls, {"source": src, "diff(model,real)": diff_view(mview, v0)})
+
+    # ---------------------------------------------------------------- C2: user words called while the program is paused
+    cap_calls = [c for c in case.get("calls_at_pause") or [] if c[1] in model.defs]
+    if cap_calls and mview is not None and pauses > 0:
+        calls_at_pause(node, case, rec, opts, drv, srcb, src, prog, cap_calls, pauses)
 
     # ---------------------------------------------------------------- A: schedule independence
     for si, sched in enumerate(case["schedules"]):
